@@ -3,6 +3,7 @@ package props
 import (
 	"fmt"
 	"math/rand"
+	"runtime"
 	"strings"
 
 	"verifharness/adapt"
@@ -17,7 +18,7 @@ type c09 struct{ base }
 
 func init() {
 	runner.Register(&c09{base{id: "C09", level: "exploration",
-		rule: "strings derived from valid condition and update sentences (generated ASTs rendered to text): every token-boundary prefix, every single-token deletion / duplication / adjacent swap, insertions from a vocabulary (keywords in three letter cases, comparators, ( ) [ ] . , + -, placeholders, names), juxtapositions 's1 s2', trailing tokens, unbalanced parentheses; byte level: random bytes incl. NUL, UTF-8 multibyte, control characters, lengths {0,1,2,3..64,255,256,1023,4095,4096}, whitespace-only, '((((...' and 'NOT NOT ...' nests up to 4 KB; hostile bindings (alias cycles, aliases containing '.'). Each string is evaluated with interpreter.Language.Match / Update in a worker process (a fatal error kills only the worker; a watchdog bounds run time) and a sample through PutItem/UpdateItem/Scan on both adapters. Oracle: runtime panic / fatal error never admissible; a string the LIBERAL recogniser (superset grammar, case-insensitive keywords) rejects must be rejected; a sentence must be rejected or evaluate to the value of the WHOLE sentence; at the client API a rejection must surface as an error or the documented panic. non-trivial = non-empty; distinct by (grammar, token-kind sequence).",
+		rule:        "strings derived from valid condition and update sentences (generated ASTs rendered to text): every token-boundary prefix, every single-token deletion / duplication / adjacent swap, insertions from a vocabulary (keywords in three letter cases, comparators, ( ) [ ] . , + -, placeholders, names), juxtapositions 's1 s2', trailing tokens, unbalanced parentheses; byte level: random bytes incl. NUL, UTF-8 multibyte, control characters, lengths {0,1,2,3..64,255,256,1023,4095,4096}, whitespace-only, '((((...' and 'NOT NOT ...' nests up to 4 KB; hostile bindings (alias cycles, aliases containing '.'). Each string is evaluated with interpreter.Language.Match / Update in a worker process (a fatal error kills only the worker; a watchdog bounds run time) and a sample through PutItem/UpdateItem/Scan on both adapters. Oracle: runtime panic / fatal error never admissible; a string the LIBERAL recogniser (superset grammar, case-insensitive keywords) rejects must be rejected; a sentence must be rejected or evaluate to the value of the WHOLE sentence; at the client API a rejection must surface as an error or the documented panic. non-trivial = non-empty; distinct by (grammar, token-kind sequence).",
 		assumptions: append([]string{"'not a sentence' is only claimed for strings outside a deliberately liberal superset grammar"}, commonAssumptions...)}})
 }
 
@@ -542,6 +543,33 @@ func (p *c09) RunCase(ctx *runner.Ctx) runner.CaseResult {
 			for i, u := range upds {
 				_, v2 := usedPlaceholders(u.s, nil, uvals)
 				p.checkUpdate(x, u, nil, v2, i%5 == (ctx.Case/4)%5, ctx)
+			}
+		}
+		// bindings that make the work explode: "#a0" -> "#a1.#a1", "#a1" -> "#a2.#a2" ... Termination is judged by a
+		// logical measure, not by the clock: the number of heap allocations of one evaluation may grow with the
+		// length of the chain, it may not DOUBLE with every further name (a chain of 28 would never return)
+		if ctx.Case%16 == 3 {
+			cost := func(n int) uint64 {
+				names := map[string]string{}
+				for i := 0; i < n; i++ {
+					names[fmt.Sprintf("#a%d", i)] = fmt.Sprintf("#a%d.#a%d", i+1, i+1)
+				}
+				names[fmt.Sprintf("#a%d", n)] = "x"
+				expr := "#a0 = :v1"
+				for i := 1; i <= n; i++ {
+					expr += fmt.Sprintf(" OR #a%d = :v1", i)
+				}
+				var m0, m1 runtime.MemStats
+				runtime.ReadMemStats(&m0)
+				matchDirect(expr, names, c09Item, values)
+				runtime.ReadMemStats(&m1)
+				x.r.Evals++
+				return m1.Mallocs - m0.Mallocs
+			}
+			c6, c16 := cost(6), cost(16)
+			x.r.Counters["alias_chain_cost_measurements"]++
+			if c16 > 200*c6+100000 {
+				x.viol("work-explodes", "alias-chain", fmt.Sprintf("a condition over a chain of 16 dotted #name bindings costs %d allocations, one over a chain of 6 costs %d: the work doubles with every binding, a chain of 30 names (an expression of under 1 KB) does not terminate in practice", c16, c6), map[string]interface{}{"chain_6": c6, "chain_16": c16})
 			}
 		}
 		hostile := []map[string]string{{"#a": "#a"}, {"#a": "#b", "#b": "#a"}, {"#a": "a.b"}, {"#a": "d.x"}, {"#a": ""}, {"#a": "#a.#a"}, {"#a": "a", "#b": "#a"}}
